@@ -156,7 +156,7 @@ impl Engine for Pred {
 
 fn pred_describe(_prop: &str) -> EngineDescription {
     EngineDescription {
-        rule: "Seeded transactions (75% Script, Create, Blob; 0–4 signed coin/message inputs over 1–3 keys with shared, duplicated and unused witnesses; 0–5 predicate inputs of the three kinds from a 14-production grammar whose truth value the generator knows: constant, predicate-data EQ/MEQ, false/revert, panics, bounded and unbounded loops, heap-hungry ALOC, fresh-heap and fresh-stack probes, BSIZ/BLDD blob reads, forbidden contract opcodes, ECAL, own-index) travel as canonical bytes with their ground truth. Per transaction: sequential estimation, estimate→basic→signatures→predicates, then S = 8 (quick) / 64 (thorough) executor schedules (task start permutation × result permutation × pool hand-out fresh / garbage stack / heap-dirty / instance just returned by an earlier predicate × 0–3 Pending polls), each compared with the sequential verdict and gas; parallel estimation on every second schedule; blob-store I/O error at the k-th call; check at a moved block height; sequential check on a heap-dirty instance; declared gas ±1; 3 (6) tampered copies re-decoded and re-checked, the typed tampers additionally applied in place to the accepted value (which carries its cached id) and re-checked: id and verdict must equal those of the wire copy. 55% of runs are all-true by construction, a third of all runs has no injected fault; 8% of runs draw max_gas_per_tx just above the transaction's need and 3% carry a stale huge declared predicate gas (both outside the estimate→verify precondition: counted as probes, not asserted). A run is non-trivial when its transaction has ≥ 2 predicates with different estimated gas, ≥ 1 dirty instance was handed to a predicate task and ≥ 1 schedule delivered results in an order different from the input order; distinct = distinct event digests among non-trivial runs.".into(),
+        rule: "Seeded transactions (75% Script, Create, Blob; 0–4 signed coin/message inputs over 1–3 keys with shared, duplicated and unused witnesses; 0–5 predicate inputs of the three kinds from a 14-production grammar whose truth value the generator knows: constant, predicate-data EQ/MEQ, false/revert, panics, bounded and unbounded loops, heap-hungry ALOC, fresh-heap and fresh-stack probes, BSIZ/BLDD blob reads, forbidden contract opcodes, ECAL, own-index) travel as canonical bytes with their ground truth. Per transaction: sequential estimation, estimate→basic→signatures→predicates, then S = 8 (quick) / 64 (thorough) executor schedules (task start permutation × result permutation × pool hand-out fresh / garbage stack / heap-dirty / instance just returned by an earlier predicate × 0–3 Pending polls), each compared with the sequential verdict and gas; parallel estimation on every second schedule; blob-store I/O error at the k-th call; check at a moved block height; sequential check on a heap-dirty instance; declared gas ±1 (the +1 also on a chain whose max_gas_per_predicate equals the predicate's need); 3 (6) tampered copies re-decoded and re-checked, the typed tampers additionally applied in place to the accepted value (which carries its cached id) and re-checked: id and verdict must equal those of the wire copy. 55% of runs are all-true by construction, a third of all runs has no injected fault; 8% of runs draw max_gas_per_tx just above the transaction's need and 3% carry a stale huge declared predicate gas (both outside the estimate→verify precondition: counted as probes, not asserted). A run is non-trivial when its transaction has ≥ 2 predicates with different estimated gas, ≥ 1 dirty instance was handed to a predicate task and ≥ 1 schedule delivered results in an order different from the input order; distinct = distinct event digests among non-trivial runs.".into(),
         real_components: vec![
             "fuel_vm::checked_transaction::{IntoChecked::into_checked_basic, Checked::check_signatures, CheckPredicates::check_predicates, EstimatePredicates::{estimate_predicates_ecal, estimate_predicates_async_ecal}} for Script, Create, Blob and the Transaction enum".into(),
             "fuel_vm::interpreter::predicates::{check_predicates, check_predicates_async} (run_predicates, run_predicate_async, check_predicate, finalize_check_predicate)".into(),
